@@ -66,7 +66,7 @@ Case == [in |-> pre, fill |-> fill,
                    IF h.ok THEN [ok |-> TRUE, k |-> IF h.h = 0 THEN "byte" ELSE IF h.k = "s" THEN "string" ELSE "list",
                                  size |-> IF h.h = 0 THEN 0 ELSE h.p] ELSE [ok |-> FALSE, c |-> {h.c}],
          split |-> Split(bs), sstr |-> SplitString(bs), slist |-> SplitList(bs),
-         suint |-> SplitUint64(bs), count |-> CountValues(bs)]
+         suint |-> SplitUint64(bs), count |-> CountValues(bs), iter |-> ListIter(bs)]
 Emit == PrintT(<<"CASE", ToJson(Case)>>)
 
 ASSUME PrintT(<<"VIEWS", ToJson(Views)>>)
